@@ -43,11 +43,15 @@ class ExprGen:
         if k < 0.55:
             return ("bin", r.choice(["+", "-", "*", "+", "-", "*", "/"]), self.expr(d + 1), self.expr(d + 1))
         if k < 0.62:
+            # modulus / exponent literals: the index is fixed BEFORE the operand is generated (the operand
+            # appends its own leaves); moduli stay positive (IC10 mod and Python % differ for negative ones)
             self.leaves.append(r.choice([2, 3, 4, 7, 10]))
-            return ("bin", "%", self.expr(d + 1), ("lit", len(self.leaves) - 1))
+            idx = len(self.leaves) - 1
+            return ("bin", "%", self.expr(d + 1), ("lit", idx))
         if k < 0.68:
             self.leaves.append(r.choice([2, 3, 0.5]))
-            return ("bin", "**", ("abs", self.expr(d + 1)), ("lit", len(self.leaves) - 1))
+            idx = len(self.leaves) - 1
+            return ("bin", "**", ("abs", self.expr(d + 1)), ("lit", idx))
         if k < 0.76:
             return ("neg", self.expr(d + 1))
         if k < 0.86:
